@@ -37,6 +37,12 @@ func (c *Client) cancelQuery() error {
 	}
 	proto.ClientCodeCancel.Encode(&b)
 
+	// Write deadline set by flushBuf can be reset by the sender that was
+	// blocked in write (deferred reset in flush) while Cancel is queued
+	// behind it, leaving this write without deadline: bounding the attempt.
+	abort := time.AfterFunc(cancelDeadline, func() { _ = c.conn.Close() })
+	defer abort.Stop()
+
 	var retErr error
 	if err := c.flushBuf(ctx, &b); err != nil {
 		retErr = errors.Join(retErr, errors.Wrap(err, "flush"))
